@@ -331,7 +331,13 @@ func c07Generate(o Opts, emit func(c07Input)) {
 			}
 			rs = append(rs, rule)
 		}
-		emit(c07Input{Kind: "rules", Rules: rs, Act: actions[r.IntN(5)], Name: names[r.IntN(len(names))]})
+		// the action asked about: usually one of the five setec knows, sometimes another string (a verb a
+		// later version might add, a typo, the empty string) - it is allowed only if a rule lists exactly it
+		act := actions[r.IntN(5)]
+		if r.IntN(5) == 0 {
+			act = []string{"list", "", "Get", "rotate", "get ", "GET"}[r.IntN(6)]
+		}
+		emit(c07Input{Kind: "rules", Rules: rs, Act: act, Name: names[r.IntN(len(names))]})
 	}
 }
 
